@@ -107,6 +107,7 @@ type Plan struct {
 	Header   string         `json:"header"`
 	ByName   bool           `json:"byname,omitempty"`
 	Mixed    bool           `json:"mixed,omitempty"` // with ByName: disagreeing constructor functions are set as well (the registered names must win on both ends)
+	TLS      bool           `json:"tls,omitempty"`   // Options carry a TLS configuration (observed at the socket constructor; TLS itself is not simulated)
 	Plain    bool           `json:"plain,omitempty"` // Listen(network,address,codec) / Dial(network,address,codec) instead of Options
 	Servers  []ServerCfg    `json:"servers"`
 	Conns    []ConnCfg      `json:"conns"`
@@ -298,6 +299,12 @@ func newBytesCodec() rpc.Codec { return &rpc.BYTESCodec{} }
 func (w *World) options(clientBuf int) *rpc.Options {
 	p := w.P
 	o := &rpc.Options{ClientBufferSize: clientBuf}
+	if p.TLS {
+		if w.Net.TLSWant == nil {
+			w.Net.TLSWant = &tls.Config{ServerName: "sim", InsecureSkipVerify: true}
+		}
+		o.TLSConfig = w.Net.TLSWant
+	}
 	if p.ByName {
 		o.Network = "sim"
 		if p.Codec == "bytes" {
@@ -325,7 +332,7 @@ func (w *World) options(clientBuf int) *rpc.Options {
 			o.NewSocket = func(*tls.Config) socket.Socket { return nil }
 		}
 	} else {
-		o.NewSocket = func(*tls.Config) socket.Socket { return w.Net.Socket() }
+		o.NewSocket = func(c *tls.Config) socket.Socket { w.Net.noteTLS(c); return w.Net.Socket() }
 		switch p.Codec {
 		case "json":
 			o.NewCodec = rpc.NewJSONCodec
@@ -352,7 +359,7 @@ var currentNet *Net
 
 func init() {
 	// options by name resolve "sim" to the network of the current run
-	rpc.RegisterSocket("sim", func(*tls.Config) socket.Socket { return currentNet.Socket() })
+	rpc.RegisterSocket("sim", func(c *tls.Config) socket.Socket { currentNet.noteTLS(c); return currentNet.Socket() })
 }
 
 func addrOf(i int) string { return fmt.Sprintf("srv%d:1", i) }
